@@ -391,3 +391,35 @@ func CanonCopyGood(axis vec, h float64) (vec, vec) {
 	n := axis.Norm()
 	return dir.Scale(h), dir.Scale(n)
 }
+
+// want:FIRSTITER the guard tests the outer counter only: the bounds restart in every row.
+func CornerBoundsBad(xs, ys []float64) (float64, float64) {
+	var lo, hi float64
+	for i, x := range xs {
+		for _, y := range ys {
+			v := x * y
+			if i == 0 {
+				lo, hi = v, v
+			} else {
+				lo, hi = math.Min(lo, v), math.Max(hi, v)
+			}
+		}
+	}
+	return lo, hi
+}
+
+// clean:FIRSTITER
+func CornerBoundsGood(xs, ys []float64) (float64, float64) {
+	var lo, hi float64
+	for i, x := range xs {
+		for j, y := range ys {
+			v := x * y
+			if i == 0 && j == 0 {
+				lo, hi = v, v
+			} else {
+				lo, hi = math.Min(lo, v), math.Max(hi, v)
+			}
+		}
+	}
+	return lo, hi
+}
